@@ -833,6 +833,9 @@ def whole_buffer_takes(body):
         recv = body.origin(t['args'][0])
         same = is_call(a, name='len') and show(strip_refs(a[2][0])) == show(strip_refs(recv))
         out.append((bb, t, bool(same)))
+    for bb, t in body.calls(name='split_off'):
+        if 'BytesMut' in (t.get('fn') or ''):
+            out.append((bb, t, False))   # hands out the tail, keeps the head: never "everything encoded so far"
     for bb, t in body.calls(name='split'):
         if 'BytesMut' in (t.get('fn') or '') and len(t['args']) == 1:
             out.append((bb, t, True))
@@ -1294,3 +1297,22 @@ def guard_is_some(tm, vals, pred):
     if is_call(inner, name='branch') and inner[2] and term_contains(inner[2][0], pred):
         return vals == [0]
     return term_contains(inner, pred) and vals == [1]
+
+
+def check_response_consults_infer(R, tonic, rule):
+    """the decoder's end-of-stream status function: every Direction::Response path goes through infer_grpc_status (no shortcut
+    that declares a response fine without looking at trailers + HTTP status)"""
+    role = [bd for bd in tonic.bodies if bd.kind != 'promoted' and 'decode::StreamingInner' in bd.path and bd.calls(name='infer_grpc_status')]
+    if len(role) != 1:
+        raise CheckError('UNRECOGNISED: %d StreamingInner methods call infer_grpc_status' % len(role))
+    rs = role[0]
+    R.saw(rs)
+    ib, it = rs.call1(name='infer_grpc_status')
+    meta_r = {}
+    byp = []
+    for cons_, path_ in mirlib.path_rows(rs, meta=meta_r, relevant=lambda sub_: sub_.startswith('discr(') and sub_.rstrip(')').endswith('.direction')):
+        vw_ = cons_view(cons_, meta_r)
+        if any(v_ == 'Response' for k_, v_ in vw_.items()) and ib not in path_:
+            byp.append(path_[-1])
+    R.check(not byp, rule, 'response-always-consults-infer', site(rs, byp[0]) if byp else site(rs, ib),
+            'every Direction::Response path of %s() goes through infer_grpc_status(trailers, http status): %d path(s) bypass it' % (rs.path.split('::')[-1], len(byp)))
